@@ -1,6 +1,6 @@
 """C06 - cw3: each ballot is one eligible voter's weight from the proposal's own snapshot."""
 from ..engine import show, OPTION
-from ..idioms import dispatch, entry_points, update_base, loaded_from, field_of, nf, walk, order_facts
+from ..idioms import dispatch, entry_points, update_base, loaded_from, field_of, nf, walk, order_facts, acc_chain, loop_elem
 from ..prims import is_rmw
 from .cw3common import (SENDER, BLOCK, HEIGHT, CS, IS_EXPIRED, STATUS, VOTE, CONTRACTS, status, items, exec_paths,
                         is_expired_cond, cs_is_passed, cs_not_passed, stored_status_in, cs_term)
@@ -193,6 +193,19 @@ def check_fixed_instantiate(ctx, it):
             if b is not None:
                 cps = ctx.engine.summarise(b, args=[clos, ("param", "V")])
                 good_sum = len(cps) == 1 and cps[0].ret == ("field", ("param", "V"), "weight")
+        if tw[0] == "loopvar":
+            # the same sum spelled as a loop: total starts at 0 and each iteration adds exactly the element's weight
+            base, chain = acc_chain(p, tw)
+            if base == ("lit", 0) and len(chain) == 1:
+                lk, var, delta = chain[0]
+                ent = [x for x in p.effects if x.kind == "loop_enter" and x.name == lk][0]
+                el = loop_elem(p, lk)
+                ivars = [c[0][2][0][2] for c in p.conds if c[0][0] == "calli" and c[0][1] == "next" and c[0][2][0][0] == "loopvar" and c[0][2][0][1] == lk]
+                lst = ent.value.get(ivars[0]) if ivars else None
+                if delta is None:
+                    good_sum = lst is not None          # zero iterations: the sum of nothing
+                elif not isinstance(delta, str):
+                    good_sum = lst is not None and delta.atoms == {("field", el, "weight"): 1} and not delta.const and not delta.inexact
         ctx.ob("R06.5", "instantiate/total is the sum of the listed weights", good_sum, sites=[cw[0].site],
                detail="CONFIG.total_weight is %s, not the sum of voters[i].weight" % show(tw)[:160], sample={"total": show(tw)[:160]})
         if not vw:
